@@ -697,7 +697,7 @@ func (x *Exec) evalCall(env *Env, e *Expr) Value {
 			// assumptions made while evaluating in the old state are facts: keep them on the current path
 			save := env.Old.Assumes
 			env.Old.Assumes = env.St.Assumes
-			v := x.eval(&ne, args[0])
+			v := x.materialize(&ne, x.eval(&ne, args[0]))
 			env.St.Assumes = env.Old.Assumes
 			env.Old.Assumes = save
 			return v
